@@ -34,12 +34,12 @@ NOT_COVERED = [
     "visitors not under contract (statements, types, comments, identifiers, expression lists, expression_atom, "
     "_visit_binary_operator_chain) and the whole DataTypeBuilder / Constant / serializable-type constructors: the ghost flag "
     "visitor_crashed is excluded only for the visitors listed under functions_under_contract",
-    "DSDLDefinition.read and _namespace_reader._read_definitions (path attachment): only "
-    "Error.set_error_location_if_unknown, which both call, is proved; the whole_text extra check observes a path on every "
-    "rejected definition (bounded)",
-    "_operator.attribute, CompositeType._attribute, SerializableType._attribute (exercised natively by whole_text only); "
-    "Set._attribute is under contract (exception classes, count, min/max select a member) but the *order* of min / max is "
-    "not specified (functools.reduce is modelled as a selection fold)",
+    "_namespace_reader._read_definitions (nested class, recursion, mutable sets: out of the engine's reach): its path "
+    "attachment is the same two statements as in DSDLDefinition.read, whose clause `raises-post#Error#path-attached` is proved "
+    "under C09 (specs/c09.py, props C09 + C13); the whole_text extra check observes a path on every rejected definition (bounded)",
+    "_operator.attribute and SerializableType._attribute (assumed exception-class contract: iteration over a BitLengthSet "
+    "is not modelled); fields of a service type: ServiceType._check_aggregation is proved to report a failure, that "
+    "CompositeType.__init__ turns it into AggregationError before computing the layout is C05's subject (whole_text: bounded)",
     "sets of sets and sets of types: every contract involving a Set operand assumes (precondition `domain`) that its "
     "element class is Boolean, Rational or String",
     "string literals whose body contains the delimiting quote character after a backslash (precondition "
